@@ -77,6 +77,36 @@ def _typestate(ctx):
                      (bad[1][0],),
                      path=K.describe(path), construct=construct,
                      evals=max(1, len(states)))
+    # conversely, a member of a group is not placed without an identity:
+    # once the identity was released in an iteration, no placement of the
+    # instance follows in that iteration unless it is acquired again
+    var = loop.var
+    rels = [n for n in loop.body() if any(
+        loop.releases(c) for c in C.node_calls(n))]
+    for rnode in rels:
+        def placing(node):
+            return any(loop.places(c) for c in C.node_calls(node))
+
+        def reacquired(edge):
+            return edge.kind == 'true' and any(
+                K.is_meth(c, 'acquire_identity') and
+                N.txt(K.recv(c)) == var for c in K.calls(edge.src.ast)
+                if edge.src.ast is not None) if edge.src.kind == 'test' \
+                else False
+        goals = [n for n in loop.body() if placing(n)]
+        path = K.find_path_cp(graph, rnode, goals,
+                              cut_node=lambda n: n is head,
+                              cut_edge=reacquired, follow_exc=False) \
+            if goals else None
+        ctx.ob('C05.1', func, rnode, path is None,
+               'after the identity was released the instance is not placed '
+               'again in the same iteration (a placed member of a group '
+               'holds an identity)' if path is None else
+               'the instance can be placed after its identity was released: '
+               'a placed member of the group without an identity, whose '
+               'identity goes to a second instance',
+               path=K.describe(path) if path else None,
+               construct='no placement after %s' % rnode.text(40))
     return loop
 
 
